@@ -89,6 +89,8 @@ static POOL: [Canary; POOL_N] = [C0; POOL_N];
 static LOG_ACTIONS: AtomicBool = AtomicBool::new(false);
 static ACTION_RUNS: AtomicU64 = AtomicU64::new(0);
 static OVERLAP_AT_UNREG: AtomicU64 = AtomicU64::new(0);
+/// a few written-out canary checks (removal called while the action was running): (tag, sig, remover tid, drops, drop tid)
+static CANARY_SAMPLES: std::sync::Mutex<Vec<(u64, c_int, u32, u32, u32)>> = std::sync::Mutex::new(Vec::new());
 
 struct Guard {
     idx: usize,
@@ -253,6 +255,13 @@ fn mutator(
         st.unregisters += 1;
         if r {
             check_removed(l.idx, Some(my_tid));
+            if c.runs.load(Ordering::Relaxed) > 0 {
+                if let Ok(mut v) = CANARY_SAMPLES.try_lock() {
+                    if v.len() < 6 {
+                        v.push((l.tag, l.sig, my_tid, c.drops.load(Ordering::SeqCst), c.drop_tid.load(Ordering::SeqCst)));
+                    }
+                }
+            }
         } else if cfg.owner_mode {
             // In owner mode nobody else can have removed it.
             if c.state.load(Ordering::SeqCst) == ST_REGISTERED {
@@ -1037,7 +1046,15 @@ pub fn main(args: &[String]) -> i32 {
         for (sname, _) in director::nested_at() {
             keys.push(J::s(&format!("nested@{}", director::site_name(sname))));
         }
-        let samples = keys.iter().take(10).cloned().collect();
+        let mut samples: Vec<J> = CANARY_SAMPLES
+            .lock()
+            .unwrap()
+            .iter()
+            .map(|(tag, sig, rem, drops, dtid)| {
+                J::s(&format!("unregister of action {:x} (signal {}) by thread {} after the action had run: in flight after return 0, released {} time(s), by thread {}, at handler depth 0", tag, sig, rem, drops, dtid))
+            })
+            .collect();
+        samples.extend(keys.iter().take(6).cloned());
         (total.unregisters + total.clears + total.it_cycles, keys, samples)
     };
     let j = J::obj()
